@@ -656,9 +656,29 @@ func (rw *rewriter) syncKind(call *ast.CallExpr) (recv ast.Expr, typ, method str
 	return sel.X, named.Obj().Name(), sel.Sel.Name
 }
 
+// isAtomic reports whether call is a method of a sync/atomic type or a function of that package.
+func (rw *rewriter) isAtomic(call *ast.CallExpr) bool {
+	sel, ok := call.Fun.(*ast.SelectorExpr)
+	if !ok {
+		return false
+	}
+	if obj := rw.info.Uses[sel.Sel]; obj != nil && obj.Pkg() != nil && obj.Pkg().Path() == "sync/atomic" {
+		if _, isFunc := obj.(*types.Func); isFunc {
+			return true
+		}
+	}
+	if s := rw.info.Selections[sel]; s != nil {
+		if f, ok := s.Obj().(*types.Func); ok && f.Pkg() != nil && f.Pkg().Path() == "sync/atomic" {
+			return true
+		}
+	}
+	return false
+}
+
 type opInfo struct {
 	sync   bool // WaitGroup op, close, send, receive, select
 	blocks bool // can block: receive, select, Wait
+	atomic bool // an operation of sync/atomic
 }
 
 // scan looks for channel / WaitGroup operations in a statement without
@@ -688,6 +708,11 @@ func (rw *rewriter) scan(n ast.Node) (oi opInfo) {
 				if m == "Wait" {
 					oi.blocks = true
 				}
+			}
+			// R8: an operation of sync/atomic (a method of atomic.Value, atomic.Bool, atomic.Int64 ... or one of the
+			// package's functions) is a scheduling point too: lock-free code is interleaved where it synchronises
+			if rw.isAtomic(v) {
+				oi.sync, oi.atomic = true, true
 			}
 		}
 		return true
@@ -722,9 +747,34 @@ func (rw *rewriter) rewriteList(list []ast.Stmt) []ast.Stmt {
 				}
 			}
 		}
+		// atomics in the header of an if, or in a return: a point in front of the statement
+		switch v := st.(type) {
+		case *ast.IfStmt:
+			hdr := opInfo{}
+			if v.Init != nil {
+				hdr = rw.scan(v.Init)
+			}
+			if c := rw.scan(v.Cond); c.atomic {
+				hdr.atomic = true
+			}
+			if hdr.atomic {
+				rw.stats["atomic"]++
+				out = append(out, rw.yield("sync", st.Pos()), st)
+				continue
+			}
+		case *ast.ReturnStmt:
+			if oi := rw.scan(v); oi.atomic {
+				rw.stats["atomic"]++
+				out = append(out, rw.yield("sync", st.Pos()), st)
+				continue
+			}
+		}
 		switch st.(type) {
 		case *ast.ExprStmt, *ast.SendStmt, *ast.AssignStmt, *ast.SelectStmt, *ast.IncDecStmt, *ast.DeclStmt:
 			if oi := rw.scan(st); oi.sync {
+				if oi.atomic {
+					rw.stats["atomic"]++
+				}
 				out = append(out, rw.yield("sync", st.Pos()), st)
 				if oi.blocks {
 					out = append(out, rw.yield("woken", st.End()))
